@@ -11,7 +11,18 @@ import z3
 # sorts
 
 RefSort = z3.IntSort()          # object references are integers (addresses)
-_U = z3.DeclareSort('U')        # universal sort for values we do not look into
+def _mk_universe():
+    d = z3.Datatype('PyVal')
+    d.declare('vnone')
+    d.declare('vint', ('ival', z3.IntSort()))
+    d.declare('vbool', ('bval', z3.BoolSort()))
+    d.declare('vstr', ('sval', z3.StringSort()))
+    d.declare('vreal', ('rval', z3.RealSort()))
+    d.declare('vother', ('oid', z3.IntSort()))
+    return d.create()
+
+
+_U = _mk_universe()              # universal sort: values of statically unknown Python type
 
 _opt_cache = {}
 _tuple_cache = {}
@@ -20,20 +31,27 @@ _tuple_cache = {}
 def opt_sort(inner):
     key = inner.sexpr() if hasattr(inner, 'sexpr') else str(inner)
     if key not in _opt_cache:
-        nm = 'Opt_' + ''.join(ch if ch.isalnum() else '_' for ch in key)
-        d = z3.Datatype(nm)
-        d.declare('none')
-        d.declare('some', ('val', inner))
-        _opt_cache[key] = d.create()
+        tag = ''.join(ch if ch.isalnum() else '_' for ch in key)
+        d = z3.Datatype('Opt_' + tag)
+        d.declare('none_' + tag)
+        d.declare('some_' + tag, ('val_' + tag, inner))
+        dt = d.create()
+        # constructor names are unique per sort (SMT-LIB text must re-parse); uniform python names:
+        dt.none = dt.constructor(0)()
+        dt.some = dt.constructor(1)
+        dt.val = dt.accessor(1, 0)
+        dt.is_none = dt.recognizer(0)
+        dt.is_some = dt.recognizer(1)
+        _opt_cache[key] = dt
     return _opt_cache[key]
 
 
 def tuple_sort(sorts):
     key = '|'.join(s.sexpr() for s in sorts)
     if key not in _tuple_cache:
-        nm = 'Tup_' + ''.join(ch if ch.isalnum() else '_' for ch in key)
-        d = z3.Datatype(nm)
-        d.declare('mk', *[('f%d' % i, s) for i, s in enumerate(sorts)])
+        tag = ''.join(ch if ch.isalnum() else '_' for ch in key)
+        d = z3.Datatype('Tup_' + tag)
+        d.declare('mk_' + tag, *[('f%d_%s' % (i, tag), s) for i, s in enumerate(sorts)])
         _tuple_cache[key] = d.create()
     return _tuple_cache[key]
 
@@ -175,6 +193,7 @@ class VMap(V):
         self.kty = kty
         self.vty = vty
         self.keys = keys   # z3 Seq of keys in insertion order, or None
+        self.on_key = ()
 
     def __repr__(self):
         return 'VMap(%s)' % self.t
@@ -403,20 +422,35 @@ class EncodeError(Exception):
 _box_funcs = {}
 
 
+def _other(name, *args):
+    """an opaque value identified by an uninterpreted function of its parts"""
+    if not args:
+        return _U.vother(z3.Int('oid_' + name))
+    sorts = [a.sort() for a in args]
+    key = name + '|' + '|'.join(x.sexpr() for x in sorts)
+    if key not in _box_funcs:
+        nm = 'oid_' + ''.join(ch if ch.isalnum() else '_' for ch in key)
+        _box_funcs[key] = z3.Function(nm, *(sorts + [z3.IntSort()]))
+    return _U.vother(_box_funcs[key](*args))
+
+
 def box(v):
-    """inject any value into U (injective per kind; not inverted)."""
+    """inject a value into the universal sort (constructors are injective and disjoint)"""
     if isinstance(v, VOpaque):
         return v.t
+    if isinstance(v, VNone):
+        return _U.vnone
+    if isinstance(v, VInt):
+        return _U.vint(v.t)
+    if isinstance(v, VBool):
+        return _U.vbool(v.t)
+    if isinstance(v, VFloat):
+        return _U.vreal(v.t)
+    if isinstance(v, VStr) and v.t.sort() == z3.StringSort():
+        return _U.vstr(v.t)
     if isinstance(v, VTuple):
         parts = [box(x) for x in v.items]
-        key = 'tup%d' % len(parts)
-        if key not in _box_funcs:
-            _box_funcs[key] = z3.Function('box_' + key, *([_U] * len(parts) + [_U]))
-        if not parts:
-            return z3.Const('box_empty_tuple', _U)
-        return _box_funcs[key](*parts)
-    if isinstance(v, VNone):
-        return z3.Const('box_none', _U)
+        return _other('tup%d' % len(parts), *parts)
     if isinstance(v, VUnion):
         t = None
         for g, a in reversed(v.alts):
@@ -425,15 +459,22 @@ def box(v):
     if isinstance(v, VCell):
         return box(v.content)
     if isinstance(v, VExc):
-        return z3.Const('box_exc_%s' % v.cls, _U)
-    if isinstance(v, (VFunc, VUserFunc, VBound, VClass, VModule, VIter, VGen)):
-        return z3.Const('box_callable_%d' % (id(v) % 100000), _U)
-    t = v.t
-    key = t.sort().sexpr()
-    if key not in _box_funcs:
-        nm = 'box_' + ''.join(ch if ch.isalnum() else '_' for ch in key)
-        _box_funcs[key] = z3.Function(nm, t.sort(), _U)
-    return _box_funcs[key](t)
+        return _other('exc_' + v.cls)
+    if isinstance(v, VRef):
+        return _other('ref', v.t)
+    if hasattr(v, 't') and v.t is not None:
+        return _other('val', v.t)
+    return _other('thing_%d' % (id(v) % 1000003))
+
+
+def unbox(u):
+    """universal term -> VUnion of typed readings"""
+    return VUnion([(_U.is_vnone(u), NONE),
+                   (_U.is_vint(u), VInt(_U.ival(u))),
+                   (_U.is_vbool(u), VBool(_U.bval(u))),
+                   (_U.is_vstr(u), VStr(_U.sval(u))),
+                   (_U.is_vreal(u), VFloat(_U.rval(u))),
+                   (_U.is_vother(u), VOpaque(u, 'other'))])
 
 
 class Opt(Ty):
@@ -465,6 +506,13 @@ class Opt(Ty):
         if inner is None:
             return None
         return z3.Or(self._s.is_none(t), inner)
+
+    def fresh(self, ctx, name):
+        v = Ty.fresh(self, ctx, name)
+        for g, a in v.alts:
+            if isinstance(a, VRef):
+                ctx.assume(z3.Implies(g, ctx.input_object_formula(a)))
+        return v
 
     def __repr__(self): return 'Opt(%r)' % self.inner
 
